@@ -20,6 +20,21 @@ pub fn run(op: &str, a: &[&str]) -> Option<String> {
             let s: TwoFloat = v.into_iter().sum();
             Some(wr_tf(s))
         }
+        // the explicit left fold with `+` from zero that Iterator::sum must equal
+        "fold_tf" => {
+            let k: usize = a.get(0)?.parse().ok()?;
+            if a.len() < 1 + 2 * k { return None; }
+            let mut acc = <TwoFloat as num_traits::Zero>::zero();
+            for i in 0..k { acc = acc + rd_tf(a[1 + 2 * i], a[2 + 2 * i]); }
+            Some(wr_tf(acc))
+        }
+        "fold_f64" => {
+            let k: usize = a.get(0)?.parse().ok()?;
+            if a.len() < 1 + k { return None; }
+            let mut acc = <TwoFloat as num_traits::Zero>::zero();
+            for i in 0..k { acc = acc + rd_f64(a[1 + i]); }
+            Some(wr_tf(acc))
+        }
         _ => None,
     }
 }
